@@ -68,6 +68,17 @@ def need(cond, what):
         raise vlib.CheckFailure("check infrastructure: " + what)
 
 
+def driver_lines(ctx, lines):
+    """one answer per line from `sqfsmodel c09` (none for no lines)"""
+    lines = list(lines)
+    if not lines:
+        return []
+    out = ctx.driver(["c09"], "\n".join(lines) + "\n")
+    if len(out) != len(lines):
+        raise vlib.CheckFailure("model driver answered %d of %d lines" % (len(out), len(lines)))
+    return out
+
+
 def harness_build(ctx):
     return ctx.cc("h_c09", ["h_c09.c", "sched.c", "lib/util/src/alloc.c"],
                   flags=["-include", str(vlib.HARNESS / "shim_sched.h")], libs=["-lpthread"])
@@ -263,8 +274,8 @@ def compare_batch(ctx, harness, rep, scripts, stats, label):
         ctx.violation("crash:" + pb["script"], "real threadpool.c under the scheduler aborted / hung (rc=%s) in or after script: %s :: %s" % (
             pb["rc"], pb["script"], pb["stderr"][-300:]), {"script": pb["script"], "stderr": pb["stderr"], "rc": pb["rc"]})
     infos = [classify_impl(l) for l in impl]
-    mon = ctx.driver(["c09"], "\n".join(monitor_lines(infos)) + "\n")
-    cmon = ctx.driver(["c09"], "\n".join("ctxmon " + inf["ev"] for inf in infos) + "\n")
+    mon = driver_lines(ctx, monitor_lines(infos))
+    cmon = driver_lines(ctx, ["ctxmon " + inf["ev"] for inf in infos])
     nbad = 0
     answered = 0
     for i, (sc, a, b, mo, cm) in enumerate(zip_strict(scripts, impl, model, mon, cmon)):
@@ -545,7 +556,9 @@ def compare_block_processor(ctx, rep, stats):
 
 
 def compare_create_failure(ctx, harness, stats):
-    """pthread_create failing inside thread_pool_create (k-th of n): must return NULL with every created worker joined"""
+    """pthread_create failing inside thread_pool_create (k-th of n): must return NULL with every created worker joined; the
+    failure path is `destroy` on a pool with the k-1 workers created so far — its program-counter trace under seeded random
+    schedules (with spurious wake-ups) must be the model's for `x` on `init (k-1)`"""
     lines = ["cfail %d %d %d" % (n, k, ctx.rng.randrange(1 << 30)) for n in range(1, 7) for k in range(1, n + 1)
              for _ in range(10 if ctx.quick() else 200)]
     impl, problems = run_parallel(ctx, [str(harness)], lines, 300)
@@ -553,16 +566,34 @@ def compare_create_failure(ctx, harness, stats):
     for pb in problems[:2]:
         ctx.violation("crash-cfail:" + pb["script"], "thread_pool_create with a failing pthread_create aborted / hung: %s :: %s" % (
             pb["script"], pb["stderr"][-300:]), {"cfail_line": pb["script"], "stderr": pb["stderr"]})
-    need(sum(1 for a in impl if a != "<no output>") > 0 or problems, "create-failure harness answered nothing")
-    for l, a in zip_strict(lines, impl):
-        if a != "<no output>" and not (a.startswith("null=1 dl=0 alive=0 ") and a.endswith("mtx=0")):
+    idx = [i for i, a in enumerate(impl) if a != "<no output>"]
+    need(idx or problems, "create-failure harness answered nothing")
+    scripts = []
+    for i in idx:
+        m = re.search(r" \|\| derived=(.*) pcs=", impl[i])
+        scripts.append("run 1 %d - %s" % (int(lines[i].split()[2]) - 1, m.group(1) if m and m.group(1) != "-" else ""))
+    model = model_run(ctx, [sc.strip() for sc in scripts])
+    compared = 0
+    for i, sc, mo in zip_strict(idx, scripts, model):
+        l, a = lines[i], impl[i]
+        head, _, tail = a.partition(" || ")
+        why = None
+        if not (head.startswith("null=1 dl=0 alive=0 ") and head.endswith("mtx=0")):
+            why = "gives %s, expected NULL, no dead-lock, all workers joined, no mutex held at a scheduling point" % head
+        else:
+            want = re.findall(r"(m=\S+ w=\S+)", mo.split(" || ")[0])[1:]          # [0] = state before the call
+            got = tail.split(" pcs=", 1)[1].split(" | ") if " pcs=" in tail else []
+            compared += 1
+            if " | ne" in mo or want != got:
+                why = "does not behave like destroy() on a pool with the workers created so far: program counters %s, model %s" % (got, want)
+        if why:
             bad += 1
             if bad <= 2:
-                ctx.violation("cfail:" + l, "thread_pool_create with a failing pthread_create (%s) gives %s, expected NULL, no dead-lock, "
-                              "all workers joined" % (l, a), {"cfail_line": l, "impl": a})
+                ctx.violation("cfail:" + l, "thread_pool_create with a failing pthread_create (%s) %s" % (l, why), {"cfail_line": l, "impl": a, "model": mo})
+    need(compared > 0 or bad or problems, "create-failure traces: nothing compared")
     stats["create_failure_runs"] = len(lines)
+    stats["create_failure_traces_compared_with_model"] = compared
     stats["disagreements"] += bad
-
 
 
 # ---- fine mode: scheduling points after every lock acquisition and after every unlock ------------------------
@@ -666,7 +697,7 @@ def compare_fine(ctx, harness, rep, stats):
     idx = [i for i, a in enumerate(impl) if a.startswith("fine ")]
     need(len(idx) > len(lines) // 2 or problems, "fine-mode harness answered %d of %d lines" % (len(idx), len(lines)))
     model = model_run(ctx, [derived_script(lines[i], impl[i]) for i in idx])
-    cmon = ctx.driver(["c09"], "\n".join("ctxmon " + (re.search(r" ev=(\S+)", impl[i]) or [None, "-"])[1] for i in idx) + "\n")
+    cmon = driver_lines(ctx, ["ctxmon " + (re.search(r" ev=(\S+)", impl[i]) or [None, "-"])[1] for i in idx])
     bad = steps = sync = 0
     for i, mo, cm in zip_strict(idx, model, cmon):
         probs, info = fine_verdict(lines[i], impl[i], mo)
@@ -761,9 +792,9 @@ def compare_real_threads(ctx, stats):
         rets = [impl[i].split(" ||")[0][2:] for i in idx]
         ops = [lines[i].split()[5:] for i in idx]
         rcs = [lines[i].split()[3] for i in idx]
-        mon = ctx.driver(["c09"], "\n".join(monitor_lines(infos)) + "\n")
-        amon = ctx.driver(["c09"], "\n".join("apimon %s %s %s" % (rc, r, " ".join(o)) for rc, r, o in zip_strict(rcs, rets, ops)) + "\n")
-        ser = ctx.driver(["c09"], "\n".join("serial - " + " ".join(o) for o in ops) + "\n")
+        mon = driver_lines(ctx, monitor_lines(infos))
+        amon = driver_lines(ctx, ["apimon %s %s %s" % (rc, r, " ".join(o)) for rc, r, o in zip_strict(rcs, rets, ops)])
+        ser = driver_lines(ctx, ["serial - " + " ".join(o) for o in ops])
         bad = nser = 0
         for i, inf, r, rc, mo, am, se in zip_strict(idx, infos, rets, rcs, mon, amon, ser):
             probs = []
@@ -804,6 +835,11 @@ def probe_variant(ctx, harness):
 
 
 def run(ctx):
+    if vlib.REPO.resolve() != vlib.Path("/repo") and not os.environ.get("VERIF_EVIDENCE_DIR"):
+        # a run against a tree other than /repo (mutant, scratch worktree) must never overwrite the committed evidence
+        vlib.EVIDENCE = vlib.REPLAYS / "evidence-nonrepo"
+        vlib.EVIDENCE.mkdir(parents=True, exist_ok=True)
+        ctx.log("VERIF_REPO=%s is not /repo: evidence goes to %s" % (vlib.REPO, vlib.EVIDENCE))
     ok, problems = vlib.proof_gate(ctx, MODULE, REQUIRED)
     if not ok:
         ctx.violation("proof:C09", "proof obligations of C09 no longer check: " + " | ".join(problems)[:1500],
@@ -892,6 +928,7 @@ def run(ctx):
         "context_clause_monitor": {"schedules_checked": stats.get("ctx_monitored", 0), "schedules_outside_the_usage_discipline": stats.get("ctx_undisciplined", 0)},
         "block_processor_on_controlled_pool": stats.get("bp"),
         "create_failure_runs": stats.get("create_failure_runs", 0),
+        "create_failure_traces_compared_with_model": stats.get("create_failure_traces_compared_with_model", 0),
         "serial_pool_scripts": stats.get("serial_scripts", 0),
         "threaded_vs_serial_return_value_comparisons": stats.get("threaded_vs_serial", 0),
         "disagreements_checked": stats["disagreements"],
@@ -969,7 +1006,7 @@ def replay(ctx, path):
         harness = harness_build(ctx)
         impl, problems = run_parallel(ctx, [str(harness)], [rp["cfail_line"]], 60)
         print(rp["cfail_line"], "->", impl[0], problems[:1])
-        ok = not problems and impl[0].startswith("null=1 dl=0 alive=0 ") and impl[0].endswith("mtx=0")
+        ok = not problems and impl[0].startswith("null=1 dl=0 alive=0 ") and impl[0].split(" || ")[0].endswith("mtx=0")
         return 0 if ok else 1
     if "script" not in rp:
         print("replay file names a broken obligation, no schedule to replay:", json.dumps(rp)[:500])
